@@ -12,6 +12,7 @@ CONSTANTS
   MaxStall = 0
   RotateFollows = TRUE
   WholeBatches = TRUE
+  PollRereads = TRUE
 INVARIANTS AppliedIsPrefix NoSplitBatch
 PROPERTIES Converges
 CHECK_DEADLOCK FALSE
